@@ -8,6 +8,7 @@ from ..cfg import FuncCFG, walk_no_nested
 from ..model import AnalysisError
 from ..runner import rule
 from ..inline import facts
+from .. import facts as _gfacts
 from ..norm import Normalizer
 
 PH = 'pySDC/helpers/ParaDiagHelper.py'
@@ -329,3 +330,21 @@ def r9(ctx, R):
             R.check(stale is None, f'{cn}.run :: active_slots (#{n}) is compressed from the final `active` of the block', w, 'no write of `active` between the compression and the next reader of active_slots', f'`active` is written again at line {stale}, after the compression at line {line}' if stale else 'final')
     if n < 4:
         raise AnalysisError(f'C15.R9: only {n} compressions of the slot list found in the serial run() loops')
+
+
+@rule('C15', 'C15.R10', 'ParaDiag forward coupling: in compute_all_at_once_residual every non-first step receives the end value of its predecessor into its INITIAL-VALUE slot (S.levels[0].u[0] = S.prev.levels[0].uend under `not S.status.first`), after the predecessor end point was computed in the same sweep over the steps and before the residual', floor=3)
+def r10(ctx, R):
+    repo = ctx.repo
+    fn = repo.func(PC, 'controller_ParaDiag_nonMPI.compute_all_at_once_residual')
+    w = f'{PC}:controller_ParaDiag_nonMPI.compute_all_at_once_residual'
+    R.fn(w)
+    recv = [s for s in ast.walk(fn) if isinstance(s, ast.Assign) and 'prev' in ast.unparse(s.value)]
+    if len(recv) != 1:
+        raise AnalysisError(f'compute_all_at_once_residual: expected one assignment from the predecessor, found {len(recv)} - re-confirm C15.R10')
+    s = recv[0]
+    R.check([ast.unparse(t) for t in s.targets] == ['S.levels[0].u[0]'] and ast.unparse(s.value) == 'S.prev.levels[0].uend', 'compute_all_at_once_residual :: predecessor end value -> own initial value, finest level', w, 'S.levels[0].u[0] = S.prev.levels[0].uend', ast.unparse(s))
+    cfg = FuncCFG(fn)
+    R.check(_gfacts.guard_strings(cfg, s) == ['not S.status.first'], 'compute_all_at_once_residual :: exactly the non-first steps receive', w, ['not S.status.first'], _gfacts.guard_strings(cfg, s))
+    order = [(c.lineno, c.func.attr) for c in ast.walk(fn) if isinstance(c, ast.Call) and isinstance(c.func, ast.Attribute) and c.func.attr in ('compute_end_point', 'compute_residual')]
+    names = [a for _, a in sorted(order)]
+    R.check(names == ['compute_end_point', 'compute_residual'] and sorted(order)[0][0] < s.lineno < sorted(order)[1][0], 'compute_all_at_once_residual :: end point, then receive, then residual', w, 'compute_end_point() < u[0] = prev.uend < compute_residual()', {'calls': names, 'receive at': s.lineno})
